@@ -3,7 +3,7 @@
 //! (a) Differential tie on the pure naming functions (all reached through public paths):
 //!     `camel|snake|esckw|purge <s>`, `unused <0|1> <s>` -> `NamingHelper::*`;
 //!     `tname <s>` -> `generate_terminal_name(s, None, None, &Cfg::default())` (the private inner
-//!     `generate_name`); `augname <names> <i>` -> `utils::generate_name` as reached through
+//!     `generate_name`); `gname33 <names> <i>` -> `utils::generate_name` as reached through
 //!     `augment_grammar` (exclusions = non-terminal set, preferred = start symbol);
 //!     `tnames <cfg> <prods> <terms>` -> `lexer_generator::generate_terminal_names(&GrammarConfig)` and
 //!     `GrammarConfig::generate_terminal_names()` on a `Cfg` built from `<cfg>`; `<prods>`/`<terms>` are
@@ -293,7 +293,7 @@ pub fn run_case(w: &[&str]) -> Option<String> {
         ["tname", s] => pure1(s, |s| {
             parol::generators::generate_terminal_name(s, None, None, &Cfg::default())
         }),
-        ["augname", names, i] => {
+        ["gname33", names, i] => {
             let names = dec_list(names)?;
             let i: usize = i.parse().ok()?;
             let start = names.get(i)?.clone();
@@ -1122,7 +1122,7 @@ pub fn generate(seed: u64, thorough: bool) -> Vec<String> {
             names.swap(i, j);
         }
         let idx = names.iter().position(|n| *n == base).unwrap();
-        out.push(format!("augname {} {}", enc_list(&names), idx));
+        out.push(format!("gname33 {} {}", enc_list(&names), idx));
     }
     // --- generate_terminal_names on direct Cfg values
     let nts = [
